@@ -219,7 +219,7 @@ def Decodable (name : Str) : Shape → Val → Prop
   | .list d, .arr xs => ListOk d xs
   | .pairs, .obj kvs => PairsOk kvs
   | .kvs d, .obj kvs => KvsOk d kvs
-  | .labelPlain, .prim p => truthyPrim p = true
+  | .labelPlain, .prim p => p ≠ .null
   | .labelList d, .arr xs => ListOk d xs ∧ xs.map spell ≠ [[]]
   | .labelPairs, .obj kvs => PairsOk kvs
   | .labelKvs, .obj kvs => KvsOk 46 kvs
